@@ -120,6 +120,21 @@ macro_rules! atomic_trivial {
     };
 }
 
+#[cfg(feature = "verif")]
+macro_rules! atomic_trivial_verif {
+    ($($name:ident),+) => {
+        $(
+            fn $name(&self, v: Self::V) -> Self::V {
+                verif::pre(self.as_ptr().cast(), size_of::<Self::V>(), true);
+                let old = self.$name(v.into(), AcqRel);
+                let new = self.load(Acquire);
+                verif::post(self.as_ptr().cast(), size_of::<Self::V>(), old as u64, new as u64, true);
+                old
+            }
+        )+
+    };
+}
+
 macro_rules! fn_trivial {
     ($ty:ident ; $($name:ident),+) => {
         $(
@@ -135,6 +150,7 @@ macro_rules! atomic_impl {
         impl Atomic for $ty {
             type I = $atomic;
         }
+        #[cfg(not(feature = "verif"))]
         impl AtomicImpl for $atomic {
             type V = $ty;
             fn new(v: Self::V) -> Self {
@@ -171,6 +187,81 @@ macro_rules! atomic_impl {
             ];
         }
 
+        /// Verification build: the same operations, each announced to the
+        /// observers in [`verif`]. `try_update`/`update` are the load + CAS loop
+        /// of `core`, built from the observed primitives.
+        #[cfg(feature = "verif")]
+        impl AtomicImpl for $atomic {
+            type V = $ty;
+            fn new(v: Self::V) -> Self {
+                Self::new(v)
+            }
+            fn load(&self) -> Self::V {
+                verif::pre(self.as_ptr().cast(), size_of::<$ty>(), false);
+                self.load(Acquire)
+            }
+            fn store(&self, v: Self::V) {
+                verif::pre(self.as_ptr().cast(), size_of::<$ty>(), true);
+                let old = self.load(Acquire);
+                self.store(v, Release);
+                verif::post(self.as_ptr().cast(), size_of::<$ty>(), old as u64, v as u64, true);
+            }
+            fn swap(&self, v: Self::V) -> Self::V {
+                verif::pre(self.as_ptr().cast(), size_of::<$ty>(), true);
+                let old = self.swap(v, AcqRel);
+                verif::post(self.as_ptr().cast(), size_of::<$ty>(), old as u64, v as u64, true);
+                old
+            }
+            fn compare_exchange(&self, current: Self::V, new: Self::V) -> Result<Self::V, Self::V> {
+                verif::pre(self.as_ptr().cast(), size_of::<$ty>(), true);
+                let r = self.compare_exchange(current, new, AcqRel, Acquire);
+                match r {
+                    Ok(old) => verif::post(self.as_ptr().cast(), size_of::<$ty>(), old as u64, new as u64, true),
+                    Err(old) => verif::post(self.as_ptr().cast(), size_of::<$ty>(), old as u64, old as u64, false),
+                }
+                r
+            }
+            fn compare_exchange_weak(
+                &self,
+                current: Self::V,
+                new: Self::V,
+            ) -> Result<Self::V, Self::V> {
+                AtomicImpl::compare_exchange(self, current, new)
+            }
+            fn try_update<F: FnMut(Self::V) -> Option<Self::V>>(
+                &self,
+                mut f: F,
+            ) -> Result<Self::V, Self::V> {
+                let mut prev = AtomicImpl::load(self);
+                while let Some(next) = f(prev) {
+                    match AtomicImpl::compare_exchange_weak(self, prev, next) {
+                        Ok(x) => return Ok(x),
+                        Err(next_prev) => {
+                            verif::retry(self.as_ptr().cast());
+                            prev = next_prev;
+                        }
+                    }
+                }
+                Err(prev)
+            }
+            fn update<F: FnMut(Self::V) -> Self::V>(&self, mut f: F) -> Self::V {
+                let mut prev = AtomicImpl::load(self);
+                loop {
+                    match AtomicImpl::compare_exchange_weak(self, prev, f(prev)) {
+                        Ok(x) => return x,
+                        Err(next_prev) => {
+                            verif::retry(self.as_ptr().cast());
+                            prev = next_prev;
+                        }
+                    }
+                }
+            }
+
+            atomic_trivial_verif![
+                fetch_min, fetch_max, fetch_add, fetch_sub, fetch_and, fetch_or, fetch_xor, fetch_nand
+            ];
+        }
+
         impl Atom<$ty> {
             fn_trivial![
                 $ty; fetch_min, fetch_max, fetch_add, fetch_sub, fetch_and, fetch_or, fetch_xor, fetch_nand
@@ -184,6 +275,45 @@ atomic_impl!(u16, AtomicU16);
 atomic_impl!(u32, AtomicU32);
 atomic_impl!(u64, AtomicU64);
 atomic_impl!(usize, AtomicUsize);
+
+/// Observers for verification builds (feature `verif`).
+///
+/// A checker installs [`verif::Hooks`]; every atomic operation of this crate
+/// then reports itself before and after it happens. No hooks installed means
+/// no observable difference to the normal build.
+#[cfg(feature = "verif")]
+pub mod verif {
+    #[derive(Clone, Copy)]
+    pub struct Hooks {
+        /// Called before an atomic access of `size` bytes at `addr`.
+        pub pre: fn(addr: *const u8, size: usize, write: bool),
+        /// Called after an atomic write or read-modify-write with the
+        /// (zero-extended) values before and after, and whether it was applied.
+        pub post: fn(addr: *const u8, size: usize, old: u64, new: u64, ok: bool),
+        /// Called when an update loop is about to retry after a failed CAS.
+        pub retry: fn(addr: *const u8),
+    }
+    pub static mut HOOKS: Option<Hooks> = None;
+
+    #[inline]
+    pub fn pre(addr: *const u8, size: usize, write: bool) {
+        if let Some(h) = unsafe { HOOKS } {
+            (h.pre)(addr, size, write)
+        }
+    }
+    #[inline]
+    pub fn post(addr: *const u8, size: usize, old: u64, new: u64, ok: bool) {
+        if let Some(h) = unsafe { HOOKS } {
+            (h.post)(addr, size, old, new, ok)
+        }
+    }
+    #[inline]
+    pub fn retry(addr: *const u8) {
+        if let Some(h) = unsafe { HOOKS } {
+            (h.retry)(addr)
+        }
+    }
+}
 
 pub trait AtomicSlice<T: Copy + Atomic> {
     /// Get a mutable reference to the whole array non-atomically.
